@@ -453,6 +453,12 @@ class ApplicationIOController(IOController, Application):
             ApplicationIOController._debug("no active request for %r" % (address,))
             return
 
+        # the reply to an earlier request that the application gave up on
+        # (aborted, timed out) is not the answer to the active one
+        if (apdu is not None) and (apdu.apduInvokeID != queue.active_iocb.args[0].apduInvokeID):
+            if _debug: ApplicationIOController._debug("    - not for the active request")
+            return
+
         # this request is complete
         if isinstance(apdu, (None.__class__, SimpleAckPDU, ComplexAckPDU)):
             queue.complete_io(queue.active_iocb, apdu)
